@@ -217,7 +217,16 @@ impl<CS: BbsCiphersuite> Signature<BBSplus<CS>> {
         update_index: usize,
         n: usize,
     ) -> Result<Self, Error> {
-        let generators = Generators::create::<CS>(n + 1, Some(CS::API_ID));
+        // update_index must address one of the n signed messages
+        if update_index >= n {
+            return Err(Error::UpdateSignatureError(
+                "len(generators) <= update_index".to_owned(),
+            ));
+        }
+        let count = n.checked_add(1).ok_or_else(|| {
+            Error::UpdateSignatureError("too many messages".to_owned())
+        })?;
+        let generators = Generators::create::<CS>(count, Some(CS::API_ID));
 
         if generators.values.len() <= update_index + 1 {
             return Err(Error::UpdateSignatureError(
